@@ -29,7 +29,7 @@ RULE = ('plan = random user policies (preset and/or group sections, missing '
         'undefined ones, engine restarts; after every step every identity '
         'reads every object. Non-trivial: some object was both allowed to '
         'one identity and denied to another. Distinct = plan digest.')
-PROBES = ['threaded_contention', 'policy_reload', 'denied_direct', 'denied_indirect_wrapping_key',
+PROBES = ['server_front_end', 'policy_file_events', 'threaded_contention', 'policy_reload', 'denied_direct', 'denied_indirect_wrapping_key',
           'denied_indirect_derive_base', 'allowed_by_group_section',
           'allowed_owner_only', 'undefined_policy_object', 'restart',
           'locate_filtered_something', 'idless_in_batch']
@@ -160,10 +160,32 @@ def generate(rng, tier, index):
     ctx = gen.Ctx(r, nactors=nact, policies=names)
     steps = []
     n = r.randint(4, 14)
+    server = index % 8 == 5
+    if server:
+        n += 6
     for i in range(n):
         x = r.random()
         a = r.randrange(nact)
         ver = r.choice([(1, 0), (1, 2), (1, 2), (1, 4), (2, 0)])
+        if server and i >= 2 and r.random() < 0.35:
+            # events on policy files, then one scan of the monitor: several
+            # files may define one policy name (shadowing), files come, are
+            # rewritten and go in any combination
+            evs = []
+            used = set()
+            for _ in range(r.choice([1, 1, 2, 2, 3])):
+                f = r.choice(['a.json', 'b.json', 'c.json',
+                              'init-pA.json', 'init-pB.json'])
+                if r.random() < 0.55:
+                    n2 = r.choice(['pA', 'pA', 'pB', 'pC'])
+                    if n2 in used:
+                        continue
+                    used.add(n2)
+                    evs.append(['write', f, n2, gen_policy(r)])
+                else:
+                    evs.append(['remove', f])
+            steps.append({'policy': {}, 'pfiles': evs})
+            continue
         if i < 2 or x < 0.28:
             # create something, usually under an explicit policy
             y = r.random()
@@ -187,6 +209,22 @@ def generate(rng, tier, index):
             nm = r.choice(['pA', 'pB', 'pC'])
             steps.append({'policy': {nm: gen_policy(r)
                                      if r.random() < 0.75 else None}})
+            # (server mode: the same moment seen as events on policy FILES,
+            # several files may define one name; 1-3 events, then one scan)
+            evs = []
+            used = set()
+            for _ in range(r.choice([1, 1, 2, 3])):
+                f = r.choice(['a.json', 'b.json', 'c.json', 'init-pA.json',
+                              'init-pB.json', 'init-pC.json'])
+                if r.random() < 0.6:
+                    n2 = r.choice(['pA', 'pB', 'pC'])
+                    if n2 in used:
+                        continue
+                    used.add(n2)
+                    evs.append(['write', f, n2, gen_policy(r)])
+                else:
+                    evs.append(['remove', f])
+            steps[-1]['pfiles'] = evs
         elif x < 0.47 and ctx.objs:
             # indirect reach: wrapping key / derivation base of someone else
             o = ctx.pick_obj(['SymmetricKey', 'SecretData'], 0)
@@ -240,7 +278,7 @@ def generate(rng, tier, index):
             elif name == 'SetAttribute':
                 op.update({'new': gen.A('Sensitive', True)})
             steps.append({'actor': a, 'ver': list(vv), 'items': [op]})
-    return {'actors': actors, 'policies': policies,
+    return {'server': server, 'actors': actors, 'policies': policies,
             'seed': r.randrange(1 << 30), 'steps': steps}
 
 
@@ -343,7 +381,25 @@ def execute(plan):
     states = []
     store = model.policy_store(plan['policies'])
     current = dict(plan['policies'])
-    W = world.World(plan['actors'], plan['policies'], seed=plan['seed'])
+    loads = {}
+    seq = [0]
+    if plan.get('server'):
+        # engine, policy store and monitor as the real KmipServer wires
+        # them; user policies arrive through policy files and scans
+        from sim import serverworld
+        W = serverworld.ServerWorld(
+            plan['actors'], None, seed=plan['seed'],
+            policy_files=dict(('init-%s.json' % nm, {nm: doc})
+                              for nm, doc in plan['policies'].items()),
+            server_opts={'live': True})
+        W.tick()
+        for nm, doc in sorted(plan['policies'].items()):
+            seq[0] += 1
+            loads['init-%s.json' % nm] = (seq[0], nm, doc)
+        probes['server_front_end'] += 1
+    else:
+        W = world.World(plan['actors'], plan['policies'],
+                        seed=plan['seed'])
     allowed_to = {}
     denied_to = {}
     creators = {}
@@ -370,6 +426,46 @@ def execute(plan):
             if 'restart' in st:
                 W.restart()
                 probes['restart'] += 1
+                if plan.get('server'):
+                    # the new monitor loads every file in one scan, in
+                    # sorted order: a later file name now is the later load
+                    W.tick()
+                    for f_ in sorted(loads):
+                        seq[0] += 1
+                        loads[f_] = (seq[0],) + tuple(loads[f_][1:])
+                    current.clear()
+                    for f_, (sq, nm, doc) in sorted(
+                            loads.items(), key=lambda kv: kv[1][0]):
+                        current[nm] = doc
+                    store.clear()
+                    store.update(model.policy_store(current))
+                continue
+            if 'policy' in st and plan.get('server'):
+                import json as _json
+                import os as _os
+                for ev in st.get('pfiles', []):
+                    path = _os.path.join(W.policy_dir, ev[1])
+                    W.clock.advance(1)
+                    if ev[0] == 'write':
+                        with open(path, 'w') as fh:
+                            _json.dump({ev[2]: ev[3]}, fh)
+                        _os.utime(path, (W.clock.now, W.clock.now))
+                        seq[0] += 1
+                        loads[ev[1]] = (seq[0], ev[2], ev[3])
+                    elif _os.path.exists(path):
+                        _os.remove(path)
+                        loads.pop(ev[1], None)
+                    else:
+                        loads.pop(ev[1], None)
+                W.tick()
+                current.clear()
+                for f_, (sq, nm, doc) in sorted(loads.items(),
+                                                key=lambda kv: kv[1][0]):
+                    current[nm] = doc
+                store.clear()
+                store.update(model.policy_store(current))
+                probes['policy_reload'] += 1
+                probes['policy_file_events'] += len(st.get('pfiles', []))
                 continue
             if 'policy' in st:
                 # what the monitor does to the shared store on a reload
